@@ -5,7 +5,7 @@ import _nio as N
 
 CONFIG = dict(
     id="C16", level="other", shims=N.SHIMS, inject=N.INJECT,
-    kani=[N.U[k] for k in ('read', 'write', 'readv', 'writev', 'recvmsg', 'sendmsg', 'readv3', 'writev3')],
+    kani=[N.U[k] for k in ('read', 'write', 'readv', 'writev', 'recvmsg', 'sendmsg', 'readv3', 'writev3', 'read_long', 'write_long', 'recvmsg3', 'sendmsg3')],
     functions=N.FUNCS, assumptions=N.ASSUME,
     bounds="per unit: " + N.BB + " (read/write) ; " + N.BV + " (vectored)",
     explanation='Bounded stand-in (contract-based, Kani): the real NIO wrappers run against a scripted kernel whose every answer is a nondeterministic choice; obligations on the return value, errno and buffer contents hold for every script of the stated length and every buffer shape within the bound. Not counted as proved: the retry loops have no structural bound.',
